@@ -126,6 +126,8 @@ def build_harness(features, log):
         name = features.replace(",", "_")
         tgt = os.path.join(HARNESS, "target", "cfg_" + name)
         cmd += ["--target-dir", tgt]
+    if os.environ.get("VERIF_NO_CARGO"):   # debugging aid only: reuse the existing binary
+        return os.path.join(tgt, "debug", "harness")
     rc, out = sh(cmd, cwd=HARNESS, env={"RUSTFLAGS": "--cfg rrtk_verif"}, timeout=3000)
     log.append(out[-3000:])
     if rc != 0:
